@@ -11,7 +11,12 @@ rsync -a --delete --exclude target --exclude .git /repo/ $ST/repo/
 rsync -a --delete --exclude target /verif/harness/ $ST/verif/harness/
 rsync -a --delete /verif/regress/ $ST/verif/regress/
 cp /verif/known_findings.json /verif/run $ST/verif/
+rsync -a --delete --exclude target --exclude corpus_run /verif/fuzz/ $ST/verif/fuzz/
+rsync -a --delete /verif/corpus/ $ST/verif/corpus/
+rsync -a /verif/tools/ $ST/verif/tools/
+sed -i "s#/verif/evidence#$ST/verif/evidence#" $ST/verif/tools/evidence_fuzz.py
 sed -i "s#path = \"/repo#path = \"$ST/repo#g" $ST/verif/harness/Cargo.toml $ST/verif/harness/*/Cargo.toml
+sed -i "s#\.\./harness#$ST/verif/harness#g" $ST/verif/fuzz/Cargo.toml
 cd $ST/repo && git init -q 2>/dev/null; git add -A >/dev/null 2>&1; git -c user.email=a@b -c user.name=st commit -q -m base >/dev/null 2>&1
 cd $ST/verif
 for m in ${MUTDIR:-/verif/mutants}/*${pat}*.patch; do
